@@ -42,6 +42,8 @@ struct Ctx {
         build_gen_intervals();
     }
 
+    // runs in which the broker repeats acknowledgements use the relaxed witness rule of C01/C14
+    bool relaxed_witness() const { return s.plan.knobs.broker.dup_ack_p > 0; }
     bool want(const char* prop) const { return only.empty() || only == "all" || only == prop; }
 
     void fail(const char* prop, const char* oracle, const std::string& detail) {
